@@ -24,7 +24,7 @@ def run(chk):
                 "first N differ from the unconstrained first N, or the case is an inactive / allowance-zero reduction")
     exprs, meta = [], []
     for it in range(450 if thorough else 100):
-        B, n, m, N, L, s = R.gen_region_case(rng, *((12, 7) if thorough else (9, 5)), graded=0.15, tiny=0.3)
+        B, n, m, N, L, s = R.gen_region_case(rng, *((12, 7) if thorough else (9, 5)), graded=0.15, tiny=0.3, faint=0.12)
         A = [int(i) for i in QR().fit(B).get_sensors()]
         k = min(n, m)
         mode = it % 3
@@ -98,7 +98,8 @@ def run(chk):
             if s == 0 and opt in ("max_n", "exact_n") and N <= n - len(L):
                 big = float(np.ceil(np.sqrt((B ** 2).sum(axis=1)).max() * 4 + 1))
                 costs = np.zeros(n)
-                costs[L] = big
+                costs[L] = big if rng.random() < 0.5 else np.inf       # "prohibitive" also written as an infinite cost
+                chk.count("s0_cost:" + ("inf" if np.isinf(costs[L]).any() else "finite"))
                 csteps = []
                 with gqr_trace.trace_ccqr(csteps):
                     cc = [int(i) for i in impl.quiet(CCQR(sensor_costs=costs).fit, B.copy()).get_sensors()]
@@ -106,7 +107,7 @@ def run(chk):
                 if cc[:N] != piv[:N]:
                     chk.violation("impl", "s0-differs-from-ccqr:" + opt, f"{opt} with allowance 0 returns {piv[:N]}, CCQR with prohibitive region costs {cc[:N]}", {**ctx, "ccqr": cc})
                 # replay CCQR from its own norms (the model's CCQR loop)
-                vals = [v for st in csteps for v in st["dlens"]] + costs.tolist()
+                vals = [v for st in csteps for v in st["dlens"]] + np.where(np.isinf(costs), big, costs).tolist()
                 ints, _ = scale_ints(vals)
                 tab, kk, p = [], 0, list(range(n))
                 for j, st in enumerate(csteps):
@@ -118,8 +119,9 @@ def run(chk):
                     ip = j + st["i_piv"]
                     p[j], p[ip] = p[ip], p[j]
                 cq = C.czlist(ints[-n:])
-                exprs.append(f"ccqr_pivots {cq} {n} {k} [{'; '.join(C.czlist(r) for r in tab)}]")
-                meta.append(({**case, "part": "CCQR replay"}, cc))
+                if not np.isinf(costs).any():        # (among sensors of infinite cost the order is arbitrary: no finite replay)
+                    exprs.append(f"ccqr_pivots {cq} {n} {k} [{'; '.join(C.czlist(r) for r in tab)}]")
+                    meta.append(({**case, "part": "CCQR replay"}, cc))
             table = R.table_from_steps(steps, n)
             kk = len(table)                     # = k unless the run produced non-finite norms in its late steps
             exprs.append(f"firstn {kk} (gqr_pivots {R.OPT[opt]} {R.coq_settings(L, A, N, s)} {n} {kk} [{'; '.join(C.czlist(r) for r in table)}])")
